@@ -185,4 +185,11 @@ def main(argv=None):
         for n, m, r in short:
             print("INCONCLUSIVE property=%s floor %s: observed %s < required %s" % (prop, n, m, r))
         return 2
+    limit = 12 if tier == "quick" else 60
+    if res.inconclusive >= limit:
+        # a handful of inconclusive units (a watchdog on a loaded machine) is expected noise; this many means the run
+        # did not observe what it claims to have observed - never folded into "held"
+        print("INCONCLUSIVE property=%s %d units of the run were inconclusive (limit %d): %s"
+              % (prop, res.inconclusive, limit, "; ".join(res.inconclusive_notes[:3])[:400]))
+        return 2
     return 0
